@@ -825,6 +825,17 @@ func (w *Wallet) recovery(chainClient chain.Interface,
 				return nil
 			})
 			if err != nil {
+				// The batch was rolled back, but extending the
+				// found addresses already advanced the address
+				// indexes cached in memory. Drop the cached
+				// account state so a retry derives and
+				// persists those addresses again.
+				for _, scopedMgr := range scopedMgrs {
+					scopedMgr.InvalidateAccountCache(
+						waddrmgr.DefaultAccountNum,
+					)
+				}
+
 				return err
 			}
 
